@@ -94,8 +94,18 @@ def requote(lit):
     return None
 
 
+EOF_LAYOUT = [b"", b" ", b"\n", b"\r\n", b"\t", b"// closing remark", b"// closing remark\n", b" // x\r\n", b"/* end */", b"/**/\n", b"\n\n\n",
+              b"//", b"/* a */ // b"]
+
+
 def variant(src, toks, rng, mode):
     """rebuild src from its token list with respelling; returns bytes or None when nothing changed"""
+    if mode == "eof":
+        # layout at the very end of the file (after the last token): trailing blanks dropped or not, a comment with or without line end
+        body = src.rstrip(b" \t\r\n") if rng.random() < 0.7 else src
+        sep = b"" if rng.random() < 0.3 else rng.choice([b" ", b"\n"])
+        v = body + sep + rng.choice(EOF_LAYOUT)
+        return v if v != src else None
     out = bytearray()
     pos = 0
     changed = False
@@ -158,6 +168,10 @@ def run(ctx):
             v = variant(b, toks_of(l), rng, "layout")
             if v:
                 srcs.append(v)
+        for _ in range(3):
+            v = variant(b, toks_of(l), rng, "eof")
+            if v:
+                srcs.append(v)
     go = fscan_go(ctx, srcs)
     mo = fscan_model(ctx, srcs)
     reported = 0
@@ -181,7 +195,7 @@ def run(ctx):
         rc0, out0, d0 = ws.gocc("b%d/o" % bi, b, flags=["-a", "-p", "x/o"])
         base_files = c09_files(d0)
         toks = toks_of(go[bi])
-        for vi, mode in enumerate(["layout", "layout", "char", "quote"]):
+        for vi, mode in enumerate(["layout", "layout", "char", "quote", "eof", "eof"]):
             v = variant(b, toks, rng, mode)
             if v is None:
                 continue
